@@ -14,6 +14,11 @@ namespace SMD.C09
 /-- every map iteration in the library's non-test code is accounted for (regenerated fact table) -/
 theorem all_map_ranges_covered : Generated.mapRanges.all Facts.mapRangeCovered = true := by decide
 
+/-- every field of a pooled walker is assigned when the walker is taken from or returned to its pool,
+except the scratch fields listed (with the reason) in `Facts.poolKeepTable` (regenerated fact table): a
+walker cannot carry a result-relevant field over from an earlier call -/
+theorem pooled_walkers_reset : Generated.poolKept.all Facts.poolKeepAllowed = true := by decide
+
 /-- non-vacuity: the table is not empty and a foreign site would not be covered -/
 example : Generated.mapRanges.length > 10 ∧ Facts.mapRangeCovered ("merge/update.go", "*Updater.Apply", "managers") = false := by
   decide
